@@ -1259,7 +1259,13 @@ _lookup(LB* self,
     else
         key = required;
 
-    result = PyDict_GetItem(cache, key);
+    result = PyDict_GetItemWithError(cache, key);
+    if (result == NULL && PyErr_Occurred()) {
+        /* e.g., an unhashable key: propagate, like ``cache.get(key)`` */
+        Py_DECREF(cache);
+        Py_DECREF(required);
+        return NULL;
+    }
     if (result == NULL) {
         int status;
 
@@ -1341,7 +1347,9 @@ _lookup1(LB* self,
     if (cache == NULL)
         return NULL;
 
-    result = PyDict_GetItem(cache, required);
+    result = PyDict_GetItemWithError(cache, required);
+    if (result == NULL && PyErr_Occurred())
+        return NULL;
     if (result == NULL) {
         PyObject* tup;
 
@@ -1531,7 +1539,12 @@ _lookupAll(LB* self, PyObject* required, PyObject* provided)
     /* Own the cache across the call below; see note in _lookup. */
     Py_INCREF(cache);
 
-    result = PyDict_GetItem(cache, required);
+    result = PyDict_GetItemWithError(cache, required);
+    if (result == NULL && PyErr_Occurred()) {
+        Py_DECREF(cache);
+        Py_DECREF(required);
+        return NULL;
+    }
     if (result == NULL) {
         int status;
 
@@ -1612,7 +1625,12 @@ _subscriptions(LB* self, PyObject* required, PyObject* provided)
     /* Own the cache across the call below; see note in _lookup. */
     Py_INCREF(cache);
 
-    result = PyDict_GetItem(cache, required);
+    result = PyDict_GetItemWithError(cache, required);
+    if (result == NULL && PyErr_Occurred()) {
+        Py_DECREF(cache);
+        Py_DECREF(required);
+        return NULL;
+    }
     if (result == NULL) {
         int status;
 
